@@ -51,17 +51,81 @@ def rand_history(rng, thorough):
     return h
 
 
-def script_of(hist):
+def directed_histories(rng, thorough):
+    """schedules aimed at the two places where the accessor is not one critical section, and at failing updates:
+    (a) a first lookup held before / after the pin while an update (and other lookups) run, then the transaction again at
+        several ages;  (b) an update held between installing the new version and queueing the old one for the vacuum while
+        lookups and time pass;  (c) an update whose k-th admin call is refused, then time across the retention + a tick."""
+    ops = ["apply", "reload", "revdf", "revll"]
+    hs, hs_a = [], []
+    def upd(op, label="B", **kw):
+        e = {"ev": "update", "op": op}
+        if op in ("apply", "reload"):
+            e["label"] = label
+        e.update(kw)
+        return e
+    # (a)
+    for at in ("pin.before_lock", "pin.before_vacuumkey"):
+        for op in ops:
+            for pre in (0, 1):
+                for other in (False, True):
+                    for age in (0, 29, 30):
+                        h = [{"ev": "reset", "label": "A"}]
+                        if pre:
+                            h += [{"ev": "lookup", "txn": "t9"}, upd("apply", "C")]
+                        inner = [upd(op, "B")] + ([{"ev": "lookup", "txn": "t2"}] if other else [])
+                        h.append({"ev": "gaplookup", "txn": "t1", "at": at, "inner": inner})
+                        if age:
+                            h.append({"ev": "adv", "d": age})
+                        h += [{"ev": "lookup", "txn": "t1"}, upd("apply", "D"), {"ev": "lookup", "txn": "t1"},
+                              {"ev": "adv", "d": 31 - age if age else 31}, {"ev": "lookup", "txn": "t1"}]
+                        hs_a.append(h)
+    # (b)
+    for op in ops:
+        for d in (1, 29, 30, 31):
+            h = [{"ev": "reset", "label": "A"}, {"ev": "lookup", "txn": "t1"},
+                 {"ev": "gapupdate", "op": op, "label": "B", "at": "version.before_vacuumkey",
+                  "inner": [{"ev": "lookup", "txn": "t2"}, {"ev": "lookup", "txn": "t1"}, {"ev": "adv", "d": d},
+                            {"ev": "lookup", "txn": "t1"}, {"ev": "lookup", "txn": "t3"}]},
+                 {"ev": "lookup", "txn": "t1"}, {"ev": "adv", "d": 30}, {"ev": "lookup", "txn": "t2"}, {"ev": "adv", "d": 6},
+                 {"ev": "lookup", "txn": "t3"}, {"ev": "lookup", "txn": "t4"}]
+            hs.append(h)
+    # (c)
+    for op in ops:
+        for k in (1, 2, 3):
+            for before in (False, True):
+                h = [{"ev": "reset", "label": "A"}]
+                if before:
+                    h += [upd("apply", "C"), {"ev": "lookup", "txn": "t1"}]
+                h += [upd(op, "B", fail=k), {"ev": "lookup", "txn": "t2"}, {"ev": "adv", "d": 25}, {"ev": "lookup", "txn": "t3"},
+                      {"ev": "lookup", "txn": "t2"}, {"ev": "adv", "d": 16}, {"ev": "lookup", "txn": "t3"}, {"ev": "lookup", "txn": "t4"},
+                      upd("apply", "D"), {"ev": "lookup", "txn": "t3"}, {"ev": "lookup", "txn": "t5"}]
+                hs.append(h)
+    return hs + (hs_a if thorough else rng.sample(hs_a, 30))
+
+
+def gapify(rng, h):
+    """turn some events of a random history into held calls / failing updates"""
     out = []
-    for e in hist:
-        if e["ev"] == "reset":
-            out.append({"ev": "reset", "label": e["label"]})
-        elif e["ev"] == "lookup":
-            out.append({"ev": "lookup", "txn": e["txn"]})
-        elif e["ev"] == "update":
-            out.append({"ev": "update", "op": e["op"], "label": e.get("label", "")})
-        elif e["ev"] == "adv":
-            out.append({"ev": "adv", "d": e["d"]})
+    i = 0
+    while i < len(h):
+        e = h[i]
+        nxt = h[i + 1] if i + 1 < len(h) else None
+        x = rng.random()
+        if e["ev"] == "lookup" and nxt and nxt["ev"] == "update" and x < 0.5:
+            out.append({"ev": "gaplookup", "txn": e["txn"], "at": rng.choice(["pin.before_lock", "pin.before_vacuumkey"]), "inner": [nxt]})
+            i += 2
+            continue
+        if e["ev"] == "update" and x < 0.25:
+            inner = []
+            while i + 1 < len(h) and h[i + 1]["ev"] in ("lookup", "adv") and len(inner) < 3:
+                inner.append(h[i + 1]); i += 1
+            out.append(dict(e, ev="gapupdate", at="version.before_vacuumkey", inner=inner))
+        elif e["ev"] == "update" and x < 0.5:
+            out.append(dict(e, fail=rng.choice([1, 2, 2, 3])))
+        else:
+            out.append(e)
+        i += 1
     return out
 
 
@@ -124,16 +188,26 @@ def execute(ctx, binary, scripts, tag):
     raise Broken("harness failed rc=%d: %s\n%s" % (last.returncode, tag, last.stderr[-3000:]))
 
 
-def judge(ctx, binary, traces, tag, seen):
+def has_gap(h):
+    return any("cs" in e or "gap" in e for e in h)
+
+
+def judge(ctx, binary, traces, tag, seen, scripts):
+    """scripts[i]["histories"][j] is the script that produced the j-th history of traces[i]."""
     def one(it):
         i, ev = it
         return validate_history_trace(ctx, SPEC, "PinTrace", ev, tag="%s%d" % (tag, i))
     def one_i(it):
         i, ev = it
-        return validate_history_trace(ctx, SPEC, "PinITrace", ev, tag="%si%d" % (tag, i), max_rounds=3)
+        # the model conformance spec runs whole calls one after the other: histories with held calls are judged by PinP only
+        cfg, hs = split_histories(ev)
+        flat = [cfg] + [e for h in hs if not has_gap(h) for e in h]
+        if len(flat) == 1:
+            return 0, [], 0
+        return validate_history_trace(ctx, SPEC, "PinITrace", flat, tag="%si%d" % (tag, i), max_rounds=3)
     res = parallel(one, list(enumerate(traces)), n=6)
     res_i = parallel(one_i, list(enumerate(traces)), n=6)
-    for (acc, rejected, _), (acc_i, rej_i, _), ev in zip(res, res_i, traces):
+    for ti, ((acc, rejected, _), (acc_i, rej_i, _), ev) in enumerate(zip(res, res_i, traces)):
         _, hs = split_histories(ev)
         ctx.cov["traces_validated_against_impl"] += acc
         for h in hs:
@@ -149,7 +223,8 @@ def judge(ctx, binary, traces, tag, seen):
             ctx.notes.append("MODEL-DRIFT (%s): PinI does not predict %s" % (tag, json.dumps(r["hist"][r["at"]])[:300]))
         for rej in rejected:
             w = witness_of(rej)
-            script = [{"histories": [script_of(rej["hist"])]}]
+            j = next(k for k, h in enumerate(hs) if h == rej["hist"])
+            script = [{"histories": [scripts[ti]["histories"][j]]}]
             t2 = execute(ctx, binary, script, "%s-repro" % tag)[0]
             _, r2, _ = validate_history_trace(ctx, SPEC, "PinTrace", t2, tag="%s-repro" % tag)
             if not r2:
@@ -171,8 +246,9 @@ def run(ctx):
                                "harness/cmd/c11 projection (version = number under which the returned *PoliciesData was seen in "
                                "VerifSnapshot; content = name of the first global remedy + absence of global diagnosis)"]
     ctx.assumptions += ["lookups take no time; at most one lookup per transaction id is in flight (request, response and diagnosis of one "
-                        "transaction follow each other); the recorded executions are sequential, interleavings of lookups with the two "
-                        "halves of an update are explored in the model only",
+                        "transaction follow each other); overlaps of a lookup / an update with other calls are forced at the yield points "
+                        "pa.pin.before_lock, pa.pin.before_vacuumkey, pa.version.before_vacuumkey and judged by PinP (the model conformance "
+                        "spec PinITrace covers the histories without held calls)",
                         "retention period = 30 s inclusive (a lookup exactly 30 s after the first one must still see the pinned version)",
                         "policy files without endpoint policies (no delayed un-manage goroutines)"]
 
@@ -203,22 +279,32 @@ def run(ctx):
         raise Broken("behaviour generation produced %d walks: %s" % (len(walks), g.out[-1500:]))
     nchunk = 2 if not T else 8
     k = (len(walks) + nchunk - 1) // nchunk
-    traces = execute(ctx, binary, [{"histories": walks[i:i + k]} for i in range(0, len(walks), k)], "gen")
+    gscripts = [{"histories": walks[i:i + k]} for i in range(0, len(walks), k)]
+    traces = execute(ctx, binary, gscripts, "gen")
     ctx.sample({"kind": "tlc-walk-replayed", "events": [{a: b for a, b in e.items() if a not in ("pins",)} for e in traces[0][1:10]]})
-    judge(ctx, binary, traces, "gen", seen)
+    judge(ctx, binary, traces, "gen", seen, gscripts)
     ctx.log("replayed %d TLC walks of PinI" % len(walks))
 
-    # (3) code -> spec: random scripts
-    nscripts, nh = (4, 40) if not T else (12, 150)
-    scripts = [{"histories": [rand_history(ctx.rng, T) for _ in range(nh)]} for _ in range(nscripts)]
+    # (3) code -> spec: random scripts (plain, and with held calls / refused admin calls), directed gap and failure schedules
+    nscripts, nh = (4, 30) if not T else (12, 120)
+    scripts = [{"histories": [rand_history(ctx.rng, T) if j % 3 else gapify(ctx.rng, rand_history(ctx.rng, T)) for j in range(nh)]}
+               for _ in range(nscripts)]
     traces = execute(ctx, binary, scripts, "rand")
     ctx.sample({"kind": "recorded-trace", "events": [{a: b for a, b in e.items() if a not in ("pins",)} for e in traces[0][1:12]]})
-    judge(ctx, binary, traces, "rand", seen)
+    judge(ctx, binary, traces, "rand", seen, scripts)
+    dscripts = [{"histories": directed_histories(ctx.rng, T)}]
+    dtraces = execute(ctx, binary, dscripts, "directed")
+    nheld = sum(1 for e in dtraces[0] if "cs" in e or "gap" in e)
+    nfail = sum(1 for e in dtraces[0] if e.get("ev") == "update" and not e.get("ok"))
+    if nheld == 0 or nfail == 0:
+        raise Broken("directed schedules: %d held calls, %d failed updates recorded (vacuous)" % (nheld, nfail))
+    judge(ctx, binary, dtraces, "directed", seen, dscripts)
+    ctx.notes.append("directed schedules: %d histories, %d held calls, %d failed updates" % (len(dscripts[0]["histories"]), nheld, nfail))
 
     # (4) binding self-test (thorough)
     if T:
         ev = traces[0]
-        k = next(i for i, e in enumerate(ev) if e.get("ev") == "lookup" and e["ver"] < e["cur"])
+        k = next(i for i, e in enumerate(ev) if e.get("ev") == "lookup" and e["ver"] < e["cur"] and "cs" not in e)
         bad = [dict(e) for e in ev]
         cur_line = next(e for e in reversed(ev[:k]) if e.get("ev") in ("update", "reset") and e.get("cur") == ev[k]["cur"])
         bad[k]["ver"], bad[k]["label"], bad[k]["df"] = ev[k]["cur"], cur_line["clabel"], cur_line["cdf"]
